@@ -583,7 +583,8 @@ class ISD(model.Document):
 
     # compute style properties
 
-    ISD._compute_styles(styles_to_be_computed, parent, isd_element)
+    if not isinstance(element, (model.Br, model.Text)):
+      ISD._compute_styles(styles_to_be_computed, parent, isd_element)
 
     # prune element is display is "none"
 
